@@ -11,6 +11,13 @@ logs = sorted(glob.glob('/root/.vp/runs/*/log'), key=lambda p: int(re.search(r'r
 for p in logs:
     n = int(re.search(r'runs/(\d+)/', p).group(1))
     for line in open(p, errors='replace'):
+        mv = re.match(r'^VERIFY (C\d\d-m\d) (\{.*\})\s*$', line)
+        if mv:
+            try:
+                res.setdefault(mv.group(1), {})['verify'] = json.loads(mv.group(2))
+            except ValueError:
+                pass
+            continue
         m = re.match(r'^(C\d\d-m\d) (C\d\d) (\{.*\})\s*$', line)
         if m:
             try:
